@@ -1218,6 +1218,11 @@ class Lattice:
             else:
                 return [], [], np.array([])
         lat_indices = lat_i[keep] + shift_lat_indices[np.newaxis, :]
+        if self.bc_shift is not None:
+            # the lower left corner of the box went around a shifted boundary: shift it as well,
+            # consistent with `possible_multi_couplings`
+            wraps = (lat_indices - np.mod(lat_indices, Ls)) // Ls
+            lat_indices[:, 0] -= np.sum(wraps[:, 1:] * self.bc_shift, axis=1)
         lat_indices = np.mod(lat_indices, coupling_shape)
         lat_j = lat_j[keep]
         lat_j_shifted = lat_j_shifted[keep]
